@@ -458,6 +458,33 @@ theorem c06_order_independent :
   have := List.all_eq_true.mp (List.all_eq_true.mp h b hb) p hp
   simpa [hk] using this
 
+/-! ### the known-finding region is empty (all seven repairs of the rule-application code have landed):
+     the partial theorems are the full statements -/
+
+theorem knownSingle_none (r : TRule) (t : FTy) : knownSingle r t = false := by
+  unfold knownSingle knownSingleL
+  cases t.base.cls <;> cases t.ptr <;> cases r <;> simp [landed] <;> split <;> simp
+
+theorem knownPair_none (r₁ r₂ : TRule) (t : FTy) : knownPair r₁ r₂ t = false := by
+  simp [knownPair, landed]
+
+theorem knownOrder_none (r₁ r₂ : TRule) (t : FTy) : knownOrder r₁ r₂ t = false := by
+  simp [knownOrder, landed]
+
+/-- **No silent no-op (single rule) — full statement**: every documented (rule, field type) cell of the regenerated
+    table gives the documented verdict on every probe. -/
+theorem c06_no_silent_noop : c06_no_silent_noop_full :=
+  fun b hb s hs hd => c06_no_silent_noop_partial b hb s hs hd (knownSingle_none _ _)
+
+/-- **Two rules, both orders — full statement.** -/
+theorem c06_pairs : c06_pairs_full := by
+  intro b hb p hp
+  exact c06_pairs_partial b hb p hp (by simp [pairKnown, knownSingle_none, knownPair_none])
+
+/-- **Order independence — full statement**: the two orders of every pair of rules give identical verdicts. -/
+theorem c06_order_independent_all : c06_order_independent_full :=
+  fun b hb p hp => c06_order_independent b hb p hp (knownOrder_none _ _ _)
+
 -- non-vacuity: the hypotheses are met by many cells
 example : ∃ b ∈ tagTable, ∃ s ∈ b.singles, documented s.1 b.fty.base.cls = true ∧ knownSingle s.1 b.fty = false ∧
     s.1 = .min 3 ∧ b.fty = ⟨false, .int64⟩ := by decide +kernel
